@@ -1,8 +1,13 @@
-(* C17 - Behaviour depends only on history; copies are equivalent. Theorems only. The model's run is a Coq function of (configuration, callbacks, API history), so determinism is by construction; what can break it in C++ is a member without initialiser or a member the hand-written copy constructor forgets. Generated/InitFacts.v lists exactly those, read off clang's AST of /repo's working tree on this run; core_over builds each field from its initialiser if it has one and from arbitrary prior memory contents g otherwise; copy_over copies a member if the constructor names it and default-initialises it otherwise. *)
+(* C17 - Behaviour depends only on history; copies are equivalent. Theorems only. The model's run is a Coq function of
+   (configuration, callbacks, API history), so determinism is by construction; what can break it in C++ is a member
+   without initialiser or a member the hand-written copy constructor forgets. Generated/InitFacts.v lists exactly
+   those, read off clang's AST of /repo's working tree on this run; core_over builds each field from its initialiser if
+   it has one and from arbitrary prior memory contents g otherwise; copy_over copies a member if the constructor names
+   it and default-initialises it otherwise. *)
 From Coq Require Import List Arith Bool NArith.
 From FFSM2 Require Import Model.TaskList Model.BitArray Model.BitStream Model.Plan Model.Ancestors Model.Machine
   Proofs.BitArrayProofs Proofs.MachineFrame Proofs.MachinePlan Proofs.MachineLife Proofs.GuardProofs Proofs.CycleProofs Proofs.PlanStep
-  Proofs.SerialProofs Proofs.LogProofs Proofs.MachineTop Model.Multi Generated.InitFacts Proofs.ConstructProofs.
+  Proofs.SerialProofs Proofs.LogProofs Proofs.MachineTop Model.Multi Generated.InitFacts Proofs.ConstructProofs Proofs.LifeMonitor Proofs.ActivationRounds Proofs.IndexSafety Proofs.FeatureProofs.
 Import ListNotations.
 
 (* a freshly constructed core is core_init whatever the storage held before *)
